@@ -275,6 +275,12 @@ func Run(cfg Config) int {
 			reachAllUnsat[o.Base] = false
 		}
 	}
+	crossChecked := 0
+	for _, o := range obls {
+		if o.CrossChecked > 0 {
+			crossChecked++
+		}
+	}
 	infeasiblePaths, coveredReturns, inconclusiveReturns := 0, 0, 0
 	for b := range reachAllUnsat {
 		if reachSat[b] {
@@ -404,6 +410,7 @@ func Run(cfg Config) int {
 				"samples":                  samples,
 				"lemma_uses":               eng.LemmaUse,
 				"assumed_postconditions":   eng.AssumedClauses,
+				"cross_checked_by_second_solver": crossChecked,
 				"returns_covered":          coveredReturns,
 				"returns_cover_inconclusive": inconclusiveReturns,
 				"infeasible_paths":         infeasiblePaths,
